@@ -157,6 +157,24 @@ def add_boundary_object(rng, d):
         d["objects"].append(leaf)
 
 
+def add_descending_in_block(rng, d):
+    """A repeated object with a NEGATIVE stride inside an offset block whose own (block-relative) address is smaller
+    than (count-1)*|stride|: every bus address base + ADDRESS - i*|stride| is valid, but only when the sum is taken
+    left to right; ADDRESS - i*|stride| on its own is negative."""
+    kind = rng.choice(["register", "command"])
+    count = rng.choice([2, 3, 4])
+    stride = rng.choice([1, 2, 5])
+    span = (count - 1) * stride
+    a = rng.randrange(0, span)                 # < span
+    off = span - a + rng.choice([0, 1, 7, 40])  # lowest bus address = off + a - span >= 0
+    rep = {"count": count, "stride": -stride}
+    if kind == "register":
+        leaf = adef.mk_register("Rzx", a, 8, [adef.mk_field("val", "uint", 0, 8)], repeat=rep, access=rng.choice([None, "WO", "RO"]))
+    else:
+        leaf = adef.mk_command("Rzx", a, repeat=rep)
+    d["objects"].append(adef.mk_block("Bzx", [leaf], address_offset=off))
+
+
 def in_known_overflow_class(key, pl_def):
     """D3: the path goes through a repeated block at a non-zero index (the min/max walk ignores block repeats for
     children, so IT/AT may be too small) — C13's known findings."""
@@ -191,6 +209,17 @@ def run(ctx):
             continue
         if rng.random() < 0.5:
             add_boundary_object(rng, d)
+        if rng.random() < 0.3:
+            add_descending_in_block(rng, d)
+        if rng.random() < 0.5:
+            # declaration order is free (a ref may precede its target, refs and plain objects interleave): the order of
+            # the accessors and of read_all_registers is the declaration order
+            def shuffle(objs):
+                rng.shuffle(objs)
+                for o in objs:
+                    if o["kind"] == "block":
+                        shuffle(o["objects"])
+            shuffle(d["objects"])
         cid = f"m{len(cases)}"
         defs[cid] = d
         syntax = rng.choice(["dsl", "dsl", "json"])
